@@ -106,6 +106,10 @@ def _random_jobs(rng, n):
                 yield ("joint", b",", nums[:-1] + [rng.choice([-1, 5])])
             yield ("joini", b" ", nums)
             yield ("join", b", ", [b"Hello", b"", b"World ", b"x"])
+            # ranges of other element TYPES: characters (four container kinds), unsigned 64 bit, short, bool, double,
+            # C strings
+            yield ("joinc", rng.choice([b"-", b"", b", "]), rng.choice([b"abc", b"x", b"", b"a b", b"\xc3\xa4z", b"0123456789" * 3]))
+            yield ("joint2", rng.choice([b" ", b","]), [rng.choice([0, 7, 255, 4096, 65535, 2147483647]) for _ in range(rng.randint(1, 4))])
 
 
 def _scale_jobs(rng):
@@ -151,8 +155,10 @@ def op_line(job):
         return "JOINI %s %s" % (hx(job[1]), " ".join(str(i) for i in job[2]))
     if k == "joins":
         return "JOINS %s %s" % (hx(job[1]), " ".join(hx(e) for e in job[2]))
-    if k in ("joinh", "joint"):
+    if k in ("joinh", "joint", "joint2"):
         return "%s %s %s" % (k.upper(), hx(job[1]), " ".join(str(i) for i in job[2]))
+    if k == "joinc":
+        return "JOINC %s %s" % (hx(job[1]), hx(job[2]))
     raise ValueError(job)
 
 
@@ -189,6 +195,10 @@ def hostile_class(job):
                                                   ("occurs-later" if job[2] in job[1] else "absent"))
     if k == "joins":
         return "single-pass-range"
+    if k == "joinc":
+        return "range-of-characters"
+    if k == "joint2":
+        return "other-element-types"
     if k == "joinh":
         return "element-inserter-leaves-hex-on-its-stream"
     if k == "joint":
@@ -251,6 +261,31 @@ def judge(job, res):
         got = line.split()[2] == "1"
         if got != job[1].startswith(job[2]):
             return ("starts_with:not-the-prefix-relation:" + cls, "starts_with(%r, %r) = %s" % (job[1], job[2], got))
+        return None
+    if k == "joinc":
+        if not line.startswith("J ok "):
+            return ("join:raised:" + cls, line[:200])
+        f = line.split()
+        a, b = bytes.fromhex(f[2][1:]), bytes.fromhex(f[3][1:])
+        want = job[1].join(bytes([ch]) for ch in job[2])
+        if a != want or b != want:
+            return ("join:range-of-characters-differs", "join over the characters of %r with %r = %r / %r, expected %r" %
+                    (job[2], job[1], a, b, want))
+        return None
+    if k == "joint2":
+        if not line.startswith("J ok "):
+            return ("join:raised:" + cls, line[:200])
+        f = line.split()
+        a, b = bytes.fromhex(f[2][1:]), bytes.fromhex(f[3][1:])
+        nums = job[2]
+        inf = job[1]
+        want_a = inf.join(str(n).encode() for n in nums)
+        want_b = b"|".join([inf.join(str(n % 30000).encode() for n in nums),
+                            inf.join(str(n % 2).encode() for n in nums),
+                            inf.join(("%g" % ((n % 1000) + 0.5)).encode() for n in nums),
+                            inf.join(str(n).encode() for n in nums)])
+        if a != want_a or b != want_b:
+            return ("join:other-element-types-differ", "join(%r, %r) = %r / %r, expected %r / %r" % (nums, inf, a, b, want_a, want_b))
         return None
     if k == "joint" and any(i < 0 for i in job[2]):
         if not line.startswith("J !std::runtime_error"):
